@@ -94,7 +94,7 @@ Proof.
   induction ops as [|o ops IH]; intros s Hinv; cbn [f_run]; [discriminate|].
   assert (He : fs_have (f_ensure s) = true /\ fs_true (f_ensure s) = fs_fields (f_ensure s)).
   { unfold f_ensure. destruct (fs_have s) eqn:E; cbn [fs_have fs_true fs_fields]; [split; [exact E|auto]|split; reflexivity]. }
-  destruct o as [n|n| |i]; cbn [f_step].
+  destruct o as [n d|n| |i|b]; cbn [f_step].
   - apply IH. cbn [fs_have]. discriminate.
   - apply IH. cbn [fs_have fs_true fs_fields]. exact Hinv.
   - apply IH. intros _. apply He.
@@ -103,16 +103,18 @@ Proof.
     + apply IH. intros _. exact He2.
     + destruct (i <=? fs_true (f_ensure s)) eqn:E2; [|lia].
       apply IH. intros _. exact He2.
+  - apply IH. cbn [fs_have fs_true fs_fields]. exact Hinv.
 Qed.
 
-(* whatever sequence of records read by the main loop, records read by `getline var`, uses of NF
-   and reads of $i happens, getField never indexes p.fieldsIsTrueStr out of range *)
+(* whatever sequence of records read by the main loop, records read by `getline var`, uses of NF,
+   reads of $i and changes of INPUTMODE in the middle of the stream happens, getField never
+   indexes p.fieldsIsTrueStr out of range *)
 Theorem csv_fields_never_panic : forall ops, f_run fs_init ops <> None.
 Proof. intros ops. apply f_run_inv. cbn. discriminate. Qed.
 
-(* `getline var` leaves the state of the current record exactly as it was *)
+(* `getline var` leaves the state of the current record exactly as it was, in every mode *)
 Theorem getline_var_keeps_fields : forall s n, f_step s (OGetlineVar n) = Some s.
-Proof. intros [f t h] n. reflexivity. Qed.
+Proof. intros [f t h m sv d] n. reflexivity. Qed.
 
 (* ---- the hypothesis on the primitives is satisfiable: any primitive record, with CallBuiltin
         forced to the table's arities, conforms ---- *)
